@@ -141,6 +141,7 @@ class Walker:
     def __init__(self, func_info, index, inline_depth=3, no_inline=()):
         self.no_inline = set(no_inline)
         self.localprocs = {}
+        self.yield_handlers = []
         self._method_procs = {}
         self.loop_keys = {}
         self.proc_depth = 0
@@ -455,15 +456,29 @@ class Walker:
             return
         if isinstance(v, ast.YieldFrom) and self.inline_generator(v.value, st):
             return
+        handler = self.yield_handlers[-1] if self.yield_handlers else None
+        if handler is not None and isinstance(v, ast.Yield) and v.value is not None:
+            handler(v.value, st)
+            return
+        if handler is not None and isinstance(v, ast.YieldFrom):
+            # yield from <iterable>  ==  for x in <iterable>: yield x
+            tmp = f"__y{self.fresh()}"
+            loop = ast.For(target=ast.Name(id=tmp, ctx=ast.Store()), iter=v.value,
+                           body=[ast.Expr(value=ast.Yield(value=ast.Name(id=tmp, ctx=ast.Load())))], orelse=[])
+            for n in ast.walk(loop):
+                n.lineno, n.col_offset, n.end_lineno, n.end_col_offset = st.lineno, 0, st.lineno, 0
+            self.block([loop])
+            return
         if isinstance(v, (ast.Yield, ast.YieldFrom)):
             val = self.ex(v.value) if v.value is not None else ('const', None)
             self.t.yields.append((val, isinstance(v, ast.YieldFrom), self.gen, st.lineno))
             return
         self.t.calls.append((self.ex(v), self.gen, self.dsl, st.lineno))
 
-    def inline_generator(self, call, st):
+    def inline_generator(self, call, st, on_yield="inherit", private_only=False):
         """yield from helper(args) where helper is a generator function of the same module (or a method of the same class):
-        its body is walked with the parameters bound, so its yields become yields of the caller."""
+        its body is walked with the parameters bound, so its yields become yields of the caller -- or are handed to
+        `on_yield(value_ast, stmt)` (a consuming for-loop, a `m.d.x +=` statement)."""
         if not isinstance(call, ast.Call) or self.inline_depth <= 0 or any(isinstance(a, ast.Starred) for a in call.args):
             return False
         target = None
@@ -475,6 +490,8 @@ class Walker:
             target = self.index.lookup_method(self.fi.cls, f.attr)
             skip = 1
         if target is None or target.node is self.fi.node or getattr(target, "name", None) in self.no_inline:
+            return False
+        if private_only and not target.node.name.startswith("_"):
             return False
         if not any(isinstance(n, (ast.Yield, ast.YieldFrom)) for n in ast.walk(target.node)):
             return False
@@ -497,9 +514,13 @@ class Walker:
         saved_env, saved_bc = dict(self.env), dict(self.bind_ctx)
         self.env = new_env
         self.inline_depth -= 1
+        if on_yield != "inherit":
+            self.yield_handlers.append(on_yield)
         try:
             self.block(target.node.body)
         finally:
+            if on_yield != "inherit":
+                self.yield_handlers.pop()
             self.inline_depth += 1
             self.env, self.bind_ctx = saved_env, saved_bc
         return True
@@ -714,6 +735,13 @@ class Walker:
     def emit(self, domain, value_node, st):
         items = value_node.elts if isinstance(value_node, (ast.List, ast.Tuple)) else [value_node]
         for it in items:
+            gcall = it
+            if isinstance(gcall, ast.Call) and isinstance(gcall.func, ast.Name) and gcall.func.id in ("list", "tuple") and \
+                    len(gcall.args) == 1 and not gcall.keywords:
+                gcall = gcall.args[0]
+            if isinstance(gcall, ast.Call) and self.inline_generator(
+                    gcall, st, on_yield=lambda val, yst, _d=domain: self.emit(_d, val, yst)):
+                continue
             if isinstance(it, (ast.ListComp, ast.GeneratorExp)) and len(it.generators) == 1 and \
                     isinstance(st, ast.AugAssign):
                 # m.d.dom += [stmt for T in ITER if C]  ==  for T in ITER: if C: m.d.dom += stmt
@@ -916,6 +944,14 @@ class Walker:
                 last = s.body[-1] if isinstance(s, ast.If) and not s.orelse and s.body else None
                 if isinstance(last, (ast.Break, ast.Continue)):
                     cond = self.ex(s.test)
+                    known = self.const_cond(cond)
+                    if known is True:
+                        self.block(s.body[:-1])
+                        if isinstance(last, ast.Continue):
+                            run(k + 1)
+                        return
+                    if known is False:
+                        continue
                     self.t.conds.append((cond, self.gen, s.lineno))
                     saved = self.gen
                     env0, bc0 = dict(self.env), dict(self.bind_ctx)
@@ -956,6 +992,23 @@ class Walker:
             names_ = [a.id for a in src.args]
         if names_ and all(self.env.get(nm, ('x',))[0] == 'listacc' for nm in names_):
             return self.for_listacc(st, [self.t.lists[self.env[nm][1]] for nm in names_])
+        if isinstance(st.iter, ast.Call):
+            outer = {"env": None}
+
+            def consume(val, yst):
+                gen_env, gen_bc = self.env, self.bind_ctx
+                value = self.ex(val)
+                self.env, self.bind_ctx = outer["env"], outer["bc"]
+                handlers, self.yield_handlers = self.yield_handlers, []
+                self.assign_target(st.target, value, st)
+                self.block(st.body)
+                self.yield_handlers = handlers
+                outer["env"], outer["bc"] = self.env, self.bind_ctx
+                self.env, self.bind_ctx = gen_env, gen_bc
+            outer["env"], outer["bc"] = dict(self.env), dict(self.bind_ctx)
+            if self.inline_generator(st.iter, st, on_yield=consume, private_only=True):
+                self.env, self.bind_ctx = outer["env"], outer["bc"]
+                return
         it = self.ex(st.iter)
         # loop fission: a second loop over the same (pure, self-derived) iterable in the same generation context walks
         # the same iteration space, so it shares the first loop's identity
@@ -1101,8 +1154,25 @@ class Walker:
         else:
             self.t.unsupported.append((getattr(target, "lineno", 0), "loop target not modelled"))
 
+    def const_cond(self, cond):
+        """True / False when a generation-time condition is decided by constants alone (an unrolled table entry), else None."""
+        try:
+            n = ir.norm(cond)
+        except Exception:
+            return None
+        if n[0] == 'const' and isinstance(n[1], (bool, int)) and not isinstance(n[1], str):
+            return bool(n[1])
+        if n == ('const', None):
+            return False
+        return None
+
     def if_(self, st):
         cond = self.ex(st.test)
+        known = self.const_cond(cond)
+        if known is not None:
+            # dead-branch pruning: only the live branch emits anything
+            self.block(st.body if known else st.orelse)
+            return
         self.t.conds.append((cond, self.gen, st.lineno))
         env0, bc0 = dict(self.env), dict(self.bind_ctx)
         saved_gen = self.gen
